@@ -25,3 +25,83 @@ def at_point(term, atom, value_term):
 def note_extraction(chk, info, prog):
     chk.notes["facts"] = {"tree_hash": info.get("tree_hash"), "cached": info.get("cached"),
                           "functions": len(prog.fns), "adts": len(prog.adts), "impls": len(prog.impls)}
+
+
+class _Scratch:
+    """collects obligations of a rule run on the witness crate (never reported as such)"""
+    def __init__(self):
+        self.obs, self.notes, self.floors = [], {}, {}
+
+    def ob(self, rule, anchor, ok, detail="", where=None, key=None):
+        self.obs.append((rule, anchor, bool(ok), key, detail))
+        return ok
+
+    def blind(self, rule, anchor, why, where=None):
+        self.obs.append((rule, anchor, False, "blind", why))
+
+    def floor(self, *a):
+        pass
+
+    def assume(self, *a):
+        pass
+
+    def trust(self, *a):
+        pass
+
+
+def vacuity(chk, families):
+    """vacuity guard: each listed rule family must fire on its deliberately violating instance in selftest/witness and
+    stay silent on the repaired twin; a family that no longer fires there fails closed"""
+    from nx import panics, sym, layout
+    wit = witness()
+    out = {}
+    for fam in families:
+        fired, quiet, why = False, False, ""
+        try:
+            if fam == "R-PANIC":
+                s = _Scratch()
+                panics.check_no_panic(s, wit, [p for p in wit.fns if "::panics::" in p], "witness")
+                bad = {a.split("::")[-1] for r, a, ok, k, d in s.obs if not ok}
+                good = {a.split("::")[-1] for r, a, ok, k, d in s.obs if ok}
+                fired = {"unguarded_index", "unguarded_range", "unwrap_it", "mul_overflow", "explicit_panic"} <= bad
+                quiet = "guarded_index" in good and "mul_ok" in good and "guarded_index" not in bad and "mul_ok" not in bad
+            elif fam == "VN-bits":
+                ev = sym.Evaluator(wit)
+                w = ev.eval_self_fn("nxwitness::terms::W::wrong_mask")
+                r = ev.eval_self_fn("nxwitness::terms::W::right_mask")
+                word = sym.fld(sym.P("self"), "word")
+                want = [(word, 1), (word, 2), (word, 3), 0, 0, 0, 0, 0]
+                fired = sym.bits_of(w, 16) != want
+                quiet = sym.bits_of(r, 16) == want
+            elif fam == "R-TABLE":
+                ev = sym.Evaluator(wit)
+                t = ev.eval_fn("nxwitness::terms::table", [sym.P("code")])
+                two = at_point(t, sym.P("code"), sym.C(2, "u8"))
+                one = at_point(t, sym.P("code"), sym.C(1, "u8"))
+                fired = two != sym.some(sym.C(2, "u8"))
+                quiet = one == sym.some(sym.C(1, "u8"))
+            elif fam == "R-WIRE":
+                ev = sym.Evaluator(wit)
+                t = ev.eval_self_fn("nxwitness::terms::W::a")
+                fired = t != sym.fld(sym.P("self"), "a")
+                quiet = ev.eval_self_fn("nxwitness::terms::W::bit4") is not None
+            elif fam == "R-LIN":
+                from rules import c09
+                cfgs = {"group": "nxwitness::lin::Group", "radials": "1", "label": "0", "elem_label": "0", "payload_ty": "nxwitness::lin::Payload"}
+                s1, s2 = _Scratch(), _Scratch()
+                c09.from_radials(s1, wit, dict(cfgs, fn="nxwitness::lin::lose_last"))
+                c09.from_radials(s2, wit, dict(cfgs, fn="nxwitness::lin::keep_all"))
+                fired = any((not ok) and k and k.startswith("exit:") for r, a, ok, k, d in s1.obs)
+                quiet = bool(s2.obs) and all(ok for r, a, ok, k, d in s2.obs)
+                why = "; ".join(d[:80] for r, a, ok, k, d in s2.obs if not ok)
+            elif fam == "R-TEMPLATE":
+                ev = sym.Evaluator(wit)
+                t = ev.eval_fn("nxwitness::terms::chunk_name_template", [sym.P("a"), sym.P("b"), sym.P("c")])
+                fired = quiet = t[0] == "fmt" and [x[0] for x in t[1]] == ["arg", "lit", "arg", "lit", "arg"] and t[1][2][2] == 3
+        except Exception as e:      # a guard that cannot run is a failed guard
+            why = "%s: %s" % (type(e).__name__, e)
+        out[fam] = bool(fired and quiet)
+        if not (fired and quiet):
+            chk.blind("vacuity", fam, "rule family does not behave on the witness crate (fires on the violating instance: %s; silent on its repaired twin: %s) %s" % (fired, quiet, why))
+    chk.notes["vacuity_guard"] = out
+    return out
